@@ -409,9 +409,14 @@ def qc_map(prog: Program) -> RuleResult:
     calls = [c for c in calls_in(af.node) if call_name(c) == qf.name]
     okan = len(calls) == 1 and src(calls[0].args[0]) == "An" and any(k.arg == cfield and isinstance(k.value, ast.Name) and k.value.id in af.params for k in calls[0].keywords)
     # and _quantify_entity forwards **kwargs to the quantifier
-    fw = [c for c in calls_in(qf.node) if isinstance(c.func, ast.Name) and c.func.id == qf.params[0] and any(k.arg is None for k in c.keywords)]
+    kwname = qf.node.args.kwarg.arg if qf.node.args.kwarg else None
+    qcalls = [c for c in calls_in(qf.node) if isinstance(c.func, ast.Name) and c.func.id == qf.params[0]]
+    fw = bool(qcalls) and kwname is not None and all(any(k.arg is None and isinstance(k.value, ast.Name) and k.value.id == kwname for k in c.keywords) for c in qcalls)
+    # every way out of the helper hands back such a construction
+    rets = [n for n in walk_local(qf.node) if isinstance(n, ast.Return)]
+    fw = fw and bool(rets) and all(n.value is not None and any(n.value is c for c in qcalls) for n in rets)
     r.check(okan and bool(fw), "an#builder", site(af), src(calls[0]) if calls else "", f"an() forwards quantification as {cfield}",
-            f"an() does not hand its quantification argument to An as {cfield}")
+            f"an() does not hand its quantification argument to An as {cfield} on every path of {qf.name} (each quantifier construction must forward **{kwname})")
     # handlers in The._evaluate__
     f = the.methods.get("_evaluate__")
     less = prog.cls("failures.LessThanExpectedNumberOfSolutions").qual
